@@ -18,11 +18,17 @@ import (
 // budgets: scenario counts per engine and tier (fixed, so that a seed always explores the
 // same set); VERIF_BUDGET_S only truncates.
 var budgets = map[string]map[string]int{
-	"par":  {"quick": 60000, "thorough": 1500000},
-	"rot":  {"quick": 20000, "thorough": 400000},
-	"hist": {"quick": 1500, "thorough": 40000},
-	"bkm":  {"quick": 1200, "thorough": 30000},
+	"C07": {"quick": 60000, "thorough": 1500000},
+	"C06": {"quick": 20000, "thorough": 400000},
+	"C03": {"quick": 2500, "thorough": 60000},
+	"C04": {"quick": 1500, "thorough": 40000},
+	"C05": {"quick": 2500, "thorough": 60000},
+	"C11": {"quick": 2000, "thorough": 40000},
+	"C17": {"quick": 8000, "thorough": 0}, // thorough: the whole cell grid, set in init
+	"C19": {"quick": 1200, "thorough": 30000},
 }
+
+func init() { budgets["C17"]["thorough"] = c17Cells() }
 
 // ---------------------------------------------------------------------------------------
 // worker pool with watchdog
@@ -315,7 +321,7 @@ func runDriver(prop, tier string, seed int64, from, count, nworkers int, verif, 
 		return 2
 	}
 	if count == 0 {
-		count = budgets[engName][tier]
+		count = budgets[prop][tier]
 		if v := envInt("VERIF_COUNT", 0); v > 0 {
 			count = int(v)
 		}
@@ -401,7 +407,7 @@ func runDriver(prop, tier string, seed int64, from, count, nworkers int, verif, 
 			continue
 		}
 		violations++
-		if violations > 6 {
+		if violations > 4 {
 			continue // enough replay files; the count is still reported
 		}
 		sc := eng.generate(prop, seed, f.index, tier)
@@ -534,7 +540,7 @@ func minimise(eng engine, sc *Scenario, fp string, p *pool) (*Scenario, *Outcome
 	if !has(bestOut) {
 		return sc, bestOut, execs
 	}
-	deadline := time.Now().Add(60 * time.Second)
+	deadline := time.Now().Add(40 * time.Second)
 	maxExecs := 2500
 	if strings.Contains(fp, "/hang/") || strings.Contains(fp, "/fatal/") {
 		maxExecs = 60 // every failing candidate costs a worker process
